@@ -174,6 +174,10 @@ PROPS["C03"] = {
         "Lace.C03.terminal_run_eq_pipe_run",
         "Lace.C03.terminal_process_eq_pipe_process",
         "Lace.C03.typed_process_eq_pipe_process",
+        "Lace.C03.loop_fuel_mono",
+        "Lace.C03.loop_fuel_agree",
+        "Lace.C03.fetches_fuel_mono",
+        "Lace.C03.ref_run_fuel_mono",
     ],
     "also": ["C03T"],
     "needs_bin": True,
